@@ -1258,6 +1258,8 @@ def preprocess_flow(rep, ex: Explorer, be: Backend, prefix):
             vw = view(p.state, val)
             ok = False
             det = repr(vw)[:300]
+            if decided(p, ("empty", pv)) is True and isinstance(vw, tuple) and vw[0] == "list" and not vw[1]:
+                ok, det = True, "no layers: the partition of an empty base stays empty"
             if isinstance(vw, tuple) and vw[0] == "list" and len(vw[1]) == 1 and vw[1][0][0] == "each":
                 _, L, fam, g, inner = vw[1][0]
                 if fam == ("members", pv) and g == PTRUE and isinstance(inner, tuple) and inner[0] == "list" and len(inner[1]) == 1 and inner[1][0][0] == "each":
